@@ -155,6 +155,16 @@ class Sock:
     def m_setblocking(self, ctx, r, args, kwargs):
         return None
 
+    def m_bind(self, ctx, r, args, kwargs):
+        if ctx.fork(2, "bind-outcome") == 1:
+            raise PyExc(ExcVal(OSError, (errno.EADDRINUSE, "Address already in use")))
+        self.bound = True
+
+    def m_listen(self, ctx, r, args, kwargs):
+        if ctx.fork(2, "listen-outcome") == 1:
+            raise PyExc(ExcVal(OSError, (errno.EADDRINUSE, "Address already in use")))
+        self.listening = True
+
     def m_setsockopt(self, ctx, r, args, kwargs):
         return None
 
@@ -563,6 +573,7 @@ def close_contract(B, tls):
     net.inject = False
     n = B.choice(0, 1, 2, label="nconn")
     srv, ss, rems = make_server(B, net, n, tls)
+    B.ctx.st(srv)["opened"] = B.bool("opened")      # not tied to .ss: open() sets it only after bind/listen succeeded
     pend = []
     if tls:
         m = B.choice(0, 1, label="handshaking")
@@ -665,4 +676,35 @@ def server_service_receives_ix(B):
     if B.raised():
         B.handled = True
         B.prove("raises-only-OSError-free", False, top=True, label="never-raises-for-socket-errors")
+    B.no_other_exception()
+
+
+
+@contract(SERVER + ".reopen", props=["C11"], name=SERVER + ".reopen[open/bind/listen outcomes]")
+def server_reopen(B):
+    """reopen() = close() + open(): the earlier listen socket is released; a failing bind/listen releases the new one too"""
+    net = Net(B)
+    net.inject = False
+    srv, ss, rems = make_server(B, net, 0)
+    had = B.choice(True, False, label="had-listen-socket")
+    if not had:
+        B.ctx.st(srv)["ss"] = None
+    B.ctx.st(srv)["opened"] = B.bool("opened")
+    B.ctx.st(srv)["bl"] = 128
+    newsock = []
+
+    def mksock(ctx, a, k):
+        s_ = net.sock("L%d" % len(newsock))
+        newsock.append(s_)
+        return s_.ref
+    B.prog.externals["socket.socket"] = mksock
+    r = B.call(srv, qual=SERVER + ".reopen")
+    if had:
+        B.prove("earlier-listen-socket-closed", ss.open is False, top=True)
+    B.prove("one-new-socket", len(newsock) == 1, top=True)
+    if B.returned() and len(newsock) == 1:
+        ok = r is True
+        B.prove("success-keeps-exactly-the-new-socket-open", (not ok) or (newsock[0].open and B.ctx.st(srv)["ss"] == newsock[0].ref), top=True)
+        B.prove("failed-bind-or-listen-releases-the-new-socket", ok or (newsock[0].open is False), top=True)
+        B.prove("opened-flag-matches", E.values_equal(B.ctx, B.ctx.st(srv)["opened"], ok), top=True)
     B.no_other_exception()
